@@ -44,6 +44,14 @@ class Scen:
         self.events.append(dict(kind="C", k=k, t=t, nat=nat, fp=fp, offer=offer, mode=mode))
         return k
 
+    def ghost_client(self, t, nat, offer, mode="v"):
+        """a client request whose NAT value is NOT one of the names the protocol allows (another spelling of one): the broker
+        must answer it with an error and nothing else may happen; the model never sees it (kind G: every label builder
+        and predicate over clients ignores it), the driver sends it like any client (numbered with the clients)"""
+        k = self.nc; self.nc += 1
+        self.events.append(dict(kind="G", k=k, t=t, nat=nat, fp="-", offer=offer, mode=mode))
+        return k
+
     def answer(self, t, sid, ans, after_poll=None):
         k = self.na; self.na += 1
         self.events.append(dict(kind="A", k=k, t=t, sid=sid, ans=ans, after=after_poll))
@@ -92,7 +100,7 @@ class Scen:
             if e["kind"] == "P":
                 ev.append("P%d:%s:%s:%s:%d%s@%d" % (e["k"], e["sid"], e["nat"], e["ptype"], e["clients"],
                                                    (":" + e["ver"]) if e.get("ver") else "", e["t"]))
-            elif e["kind"] == "C":
+            elif e["kind"] in ("C", "G"):
                 ev.append("C%d:%s:%s:%s:%s@%d" % (e["k"], e["nat"], e["fp"], e["offer"], e["mode"], e["t"]))
             elif e["kind"] == "A":
                 when = "P%d+%d" % (e["after"], e["t"]) if e["after"] is not None else str(e["t"])
@@ -538,7 +546,10 @@ def model_line(sc, labels, tags, version="v1", op="run"):
 def canon_impl(sc, obs):
     """implementation observation -> canonical dict comparable with the model's"""
     d = {}
+    ghosts = set("C%d" % e["k"] for e in sc.events if e["kind"] == "G")
     for k, v in obs.items():
+        if k in ghosts:
+            continue          # the model never saw this request (Scen.ghost_client); check_history judges its answer
         if k[0] == "P" and k[1:].isdigit():
             d[k] = "error" if v == "http:500" else v
         elif k[0] == "C" and k[1:].isdigit():
@@ -578,12 +589,22 @@ def check_history(sc, obs):
     clients = {e["k"]: e for e in sc.events if e["kind"] == "C"}
     answers = [e for e in sc.events if e["kind"] == "A"]
     by_offer = {c["offer"]: c for c in clients.values()}
+    ghosts = {e["offer"]: e for e in sc.events if e["kind"] == "G"}
+    for g in ghosts.values():
+        r = obs.get("C%d" % g["k"], "")
+        if r.startswith("answer") or r.startswith("match") or r.startswith("timeout"):
+            bad.append(("C03", "invalid-nat-client-served", "client C%d sent the NAT value %r, which is none of the protocol's names, and was "
+                        "treated as a client (%s) instead of being refused" % (g["k"], g["nat"], r[:80])))
     got = {}     # client k -> poll k that received its offer
     for pk, p in polls.items():
         r = obs.get("P%d" % pk, "")
         if r.startswith("match:"):
             _, off, cnat, relay = r.split(":", 3)
             c = by_offer.get(off)
+            if c is None and off in ghosts:
+                bad.append(("C03", "invalid-nat-client-matched", "poll P%d (%s) was handed the offer of client C%d, whose NAT value %r is none of the "
+                            "protocol's names: no pool is compatible with it" % (pk, p["nat"] or "unknown", ghosts[off]["k"], ghosts[off]["nat"])))
+                continue
             if c is None:
                 bad.append(("C02", "foreign-offer", "poll P%d received an offer no client sent: %s" % (pk, off)))
                 continue
@@ -1183,6 +1204,14 @@ def scenarios(rng, tier):
                     sc.client(300, cn, off, mode=mode)
                     sc.answer(200, sid, fresh("ans"), after_poll=0)
                     S.append(sc)
+        # NAT values that are other spellings of the protocol's names: refused, and no proxy of either pool gets the offer
+        for sp in (["Restricted", "UNKNOWN", "Unrestricted"], ["rEsTrIcTeD", "Unknown", "UNRESTRICTED", "restricted\u00a0", "nat"]):
+            sc = Scen(fresh("natsp"), "invalid-nat-spelling")
+            sc.poll(0, fresh("sid"), "restricted", clients=0)
+            sc.poll(60, fresh("sid"), "unrestricted", clients=0)
+            for j, sv in enumerate(sp):
+                sc.ghost_client(400 + 300 * j, sv, "{%s}" % fresh("o"), mode="v")
+            S.append(sc)
         # bridges: named fingerprint, default, unknown fingerprint
         BD = [(DEFAULT_FP, DEFAULT_URL)] + B2
         for fp, mode, blist in [(B2[0][0], "v", BD), (B2[1][0], "a", BD), ("-", "v", BD), ("C" * 40, "v", BD), ("C" * 40, "a", BD),
